@@ -172,6 +172,7 @@ class Env:
         self.iv = {}           # expr key -> (lo, hi) refinement
         self.zero = set()      # keys of expressions known == 0 (e.g. rem(size, 3))
         self.atoms = {}        # atom key -> E (for interval lookup)
+        self.defs = {}         # name of a bound local -> the expression it stands for (shared registry)
         self.conds = {}        # cond key -> bool
 
     def copy(self):
@@ -180,6 +181,7 @@ class Env:
         e.iv = dict(self.iv)
         e.zero = set(self.zero)
         e.atoms = self.atoms  # shared registry
+        e.defs = self.defs
         e.conds = dict(self.conds)
         return e
 
